@@ -196,13 +196,13 @@ def _follow(sym, base, hops, urls):
             downgrade_at = j
 
     # never https -> http: no request over a plain connection once a https URL was in the chain
-    seen_https = False
+    seen_https = False          # an EARLIER url of the chain was https (request j's own scheme is checked in _check_requests)
     for j, rec in enumerate(log):
-        if j < len(urls) and url_parts(urls[j])[0] == "https":
-            seen_https = True
-        if seen_https and not rec["tls"]:
+        own_https = j < len(urls) and url_parts(urls[j])[0] == "https"
+        if seen_https and not own_https and not rec["tls"]:
             sym.fail("C34/https-downgraded-to-http", "request %d sent without TLS to %r after a https URL; chain %r"
                      % (j, rec["server"], urls))
+        seen_https = seen_https or own_https
 
     if downgrade_at is not None:
         # requests up to the downgrading hop must still be right; then anything but a plain request is accepted
